@@ -133,12 +133,15 @@ def rand_json(rng, depth):
 class Spy(io.RawIOBase):
     """wsgi.input that records how far it was read"""
 
-    def __init__(self, data):
+    def __init__(self, data, piece=None):
         super().__init__()
         self.b = io.BytesIO(data)
         self.calls = []
+        self.piece = piece      # at most so many bytes per read call (what has arrived so far), None: everything asked for
 
     def read(self, n=-1):
+        if self.piece is not None and (n is None or n < 0 or n > self.piece):
+            n = self.piece
         r = self.b.read(n)
         self.calls.append(("read", n, len(r)))
         return r
@@ -504,6 +507,9 @@ def generate(rng, tier):
     # end-to-end oracle cases
     for i in range(1500 if big else 300):
         cases.append("C10 e2e %d" % rng.randrange(1 << 30))
+    # ... and directed ones: bodies that arrive in pieces (the input hands over fewer bytes than asked for)
+    for i in range(400 if big else 120):
+        cases.append("C10 e2e %d pieces" % rng.randrange(1 << 30))
     return cases
 
 
@@ -607,6 +613,9 @@ def oracle(case):
         return []
     rng = random.Random(int(t[2]))
     kind = rng.choice(["pairs", "pairs", "json", "badjson", "stream", "stream", "headers"])
+    pieces = len(t) > 3 and t[3] == "pieces"
+    if pieces:
+        kind = "stream"
     bad = None
     try:
         if kind == "pairs":
@@ -730,18 +739,54 @@ def oracle(case):
                        auto_form=rng.random() < 0.9, auto_json=rng.random() < 0.9)
             method = rng.choice(["POST", "PUT", "PATCH", "GET", "DELETE", "HEAD"])
             cl = rng.choice([len(body), len(body), len(body), None, 0, max(len(body) - 3, 0)])
+            if pieces:
+                method = rng.choice(["POST", "PUT", "PATCH"])
+                cl = rng.choice([len(body), len(body), max(len(body) - 3, 0)])
             env = environ(method, "", body, ctype, cl)
             # the handler reads the body itself, in pieces: req.read(k) any number of times
             sizes = [rng.choice([-1, -1, 0, 1, 2, 5, 100]) for _ in range(rng.randrange(0, 5))]
             got = []
+            # ... from a stream that hands over what has arrived so far (fewer bytes than asked for), the handler going on
+            # until it is given nothing
+            piece = rng.choice([None, None, None, 1, 3, 7])
+            if pieces:
+                piece = rng.choice([1, 2, 3, 7])
+            until_empty = piece is not None and rng.random() < 0.7
+            if piece is not None:
+                env["wsgi.input"] = Spy(body + TRAIL, piece)
+                if until_empty:
+                    sizes = [rng.choice([1, 2, 5, 100])]
+
+            parsed = []
 
             def fn(req):
+                parsed.append((sorted((k, req.form.getlist(k)) for k in req.form.keys()) if req.form is not None else None,
+                               dict(req.json.items()) if hasattr(req.json, "items") else req.json))
+                if until_empty:
+                    for _ in range(4 * len(body) + 8):
+                        got.append(req.read(sizes[0]))
+                        if not got[-1]:
+                            break
+                    return None
                 for k in sizes:
                     got.append(req.read(k) if k >= 0 or rng.random() < 0.5 else req.read())
                 return None
             status, ran, _, _ = call(get_app(**cfg), env, fn)
             limit = cl or 0
-            if env["wsgi.input"].pos > limit:
+            if ran and piece is not None and cl == len(body) and method in ("POST", "PUT", "PATCH"):
+                # what the framework parsed itself does not depend on how the bytes arrived
+                form, js = parsed[0]
+                if ctype == "application/x-www-form-urlencoded" and cfg["auto_form"] and form != [("a", ["1"]), ("b", ["2"])]:
+                    bad = "body %r arriving in pieces of %d: the form holds %r (%s)" % (body, piece, form, cfg)
+                if ctype == "application/json" and cfg["auto_json"] and js != {"a": 1}:
+                    bad = "body %r arriving in pieces of %d: req.json is %r (%s)" % (body, piece, js, cfg)
+            if not ran and piece is not None and cl == len(body) and ctype == "application/json" and cfg["auto_json"] \
+                    and method in ("POST", "PUT", "PATCH"):
+                bad = "valid JSON %r arriving in pieces of %d was answered %d without running the endpoint (%s)" % (
+                    body, piece, status, cfg)
+            if bad:
+                pass
+            elif env["wsgi.input"].pos > limit:
                 bad = ("%d bytes taken from wsgi.input, declared Content-Length %r (%s, %s, body %r, handler reads %r)"
                        % (env["wsgi.input"].pos, cl, ctype, cfg, body[-24:], sizes))
             elif ran and ctype in ("text/plain", None) and method in ("POST", "PUT", "PATCH"):
@@ -749,9 +794,12 @@ def oracle(case):
                 joined = b"".join(got)
                 if not body[:limit].startswith(joined):
                     bad = ("req.read%r returned %r, the declared body is %r (%s)" % (sizes, got, body[:limit], cfg))
-                elif any(k < 0 for k in sizes) and joined != body[:limit]:
+                elif piece is None and any(k < 0 for k in sizes) and joined != body[:limit]:
                     bad = ("req.read%r returned %r: a read without size must deliver the rest of the declared body %r (%s)"
                            % (sizes, got, body[:limit], cfg))
+                elif until_empty and joined != body[:limit]:
+                    bad = ("req.read(%d) repeated until it returned nothing delivered %r, the declared body is %r (input in "
+                           "pieces of %d, %s)" % (sizes[0], joined, body[:limit], piece, cfg))
         elif kind == "headers":
             name = rng.choice(["X-Foo", "Accept-Language", "X-A-B-C", "If-None-Match", "X1", "Content-Md5"])
             value = rng.choice(["v", "Value; q=1", "é", " spaced ", "V,w"])
